@@ -98,6 +98,30 @@ class TwoMotors(Base):
 
 
 @register
+class BareCp(Base):
+    """A run the plan never closes, with a non-resumable section: the engine closes it, also after a FailedPause."""
+
+    id = "barecp"
+
+    def devices(self, ctx):
+        m = FakeMotor(ctx, "m", is_async=self.a, move=("delay", 1.0))
+        return {"m": m, "det": FakeDet(ctx, "det", is_async=self.a, motors=[m], stageable=False)}
+
+    def plan(self, d):
+        import bluesky.plan_stubs as bps
+
+        def plan():
+            yield from bps.open_run()
+            yield from bps.checkpoint()
+            yield from bps.trigger_and_read([d["det"]])
+            yield from bps.clear_checkpoint()
+            yield from bps.mv(d["m"], 1)
+            yield from bps.trigger_and_read([d["det"]])
+
+        return plan()
+
+
+@register
 class FlyOnly(Base):
     """bp.fly: kickoff / complete / collect without step readings."""
 
